@@ -180,9 +180,19 @@ def run(ctx):
                                                'source': progs[pid].source(), 'function': f['name'], 'level': O})
             if pid in twins and vs['without']['status'] == 'ok':
                 ok[pid] = vs
-        ce = coexec(ok, 8 if quick else 24, rng, fuel=60000)
+        ce = coexec(ok, 8 if quick else 24, rng, fuel=60000, small_index=True)
+        # only states the C semantics decides: an out-of-range subscript may alias DUMMY, which csleep changes
+        from lib.csem import cprog_record, run_csem
+        ctext_ = []
+        for pid, m in ce.items():
+            t_, _ = cprog_record(pid, progs[pid], m['layout'], m['states'])
+            ctext_.append(t_)
+        cdec = run_csem(''.join(ctext_)) if ctext_ else {}
         for pid, m in ce.items():
             for k in range(len(m['states'])):
+                if (cdec.get(pid, {}).get(k) or {}).get('tag') != 'ok':
+                    stats['undecided'] += 1
+                    continue
                 a, b = m['runs']['with'].get(k), m['runs']['without'].get(k)
                 if a is None or b is None:
                     raise HarnessError('missing co-execution result')
